@@ -207,6 +207,7 @@ type HarnessResult struct {
 	Samples     []map[string]interface{}
 	MaxSteps    int
 	Pruned      int
+	Records     []string
 }
 
 type task struct{ prefix []*Decision }
@@ -486,6 +487,9 @@ func (e *explorer) record(ex *Exec, ps PathStat) {
 	}
 	if ps.Steps > r.MaxSteps {
 		r.MaxSteps = ps.Steps
+	}
+	if len(ex.records) > 0 && r.Records == nil {
+		r.Records = append([]string{}, ex.records...)
 	}
 	switch ps.Kind {
 	case "violation", "panic":
